@@ -22,6 +22,8 @@ func main() {
 		os.Exit(workerMain(os.Args[2:]))
 	case "replay":
 		os.Exit(replayMain(os.Args[2:]))
+	case "one":
+		os.Exit(oneMain(os.Args[2:]))
 	case "gencheck":
 		os.Exit(genCheck(os.Args[2:]))
 	default:
